@@ -41,6 +41,20 @@ type avElemAddr struct {
 }
 type avCycle struct{}
 
+// avFunc is a function value (closure with its evaluated bindings).
+type avFunc struct {
+	fn   *ssa.Function
+	free []AV
+}
+
+func (a avFunc) key() string {
+	k := fmt.Sprintf("f:%p", a.fn)
+	for _, x := range a.free {
+		k += "," + avKey(x)
+	}
+	return k
+}
+
 func (a avConst) key() string {
 	if a.v == nil {
 		return "nil"
@@ -111,8 +125,10 @@ type Evaluator struct {
 	MaxDepth int
 	memo     map[string]*Frame
 	inprog   map[string]bool
-	// Pure models natively evaluated functions on all-constant arguments.
-	Undecided []string
+	// Bind overrides the abstract value of specific SSA values (e.g. the
+	// result of one map lookup: "whenever the destination is occupied by an
+	// entry of type T").
+	Bind map[ssa.Value]AV
 }
 
 func newEvaluator(c *Ctx) *Evaluator {
@@ -318,6 +334,9 @@ func (f *Frame) Eval(v ssa.Value) AV {
 	if a, ok := f.memo[v]; ok {
 		return a
 	}
+	if b, ok := f.ev.Bind[v]; ok {
+		return b
+	}
 	if f.busy[v] {
 		return avCycle{}
 	}
@@ -453,6 +472,15 @@ func (f *Frame) eval1(v ssa.Value) AV {
 		return nil
 	case *ssa.MakeInterface:
 		return nil
+	case *ssa.Function:
+		return avFunc{fn: x}
+	case *ssa.MakeClosure:
+		fn, _ := x.Fn.(*ssa.Function)
+		var free []AV
+		for _, b := range x.Bindings {
+			free = append(free, f.Eval(b))
+		}
+		return avFunc{fn: fn, free: free}
 	case *ssa.Call:
 		return f.evalCall(x)
 	case *ssa.Extract:
@@ -581,6 +609,14 @@ func (f *Frame) childFrame(call ssa.CallInstruction) *Frame {
 			for _, b := range mc.Bindings {
 				free = append(free, f.Eval(b))
 			}
+		} else if !cc.IsInvoke() {
+			// a func value whose target the cell determines (a builder passed
+			// as an argument)
+			if _, isB := cc.Value.(*ssa.Builtin); !isB {
+				if fv, ok := f.Eval(cc.Value).(avFunc); ok && fv.fn != nil {
+					callee, free = fv.fn, fv.free
+				}
+			}
 		}
 	} else if mc, ok := cc.Value.(*ssa.MakeClosure); ok {
 		for _, b := range mc.Bindings {
@@ -683,4 +719,69 @@ func (f *Frame) LiveInstrs() []LiveInstr {
 	}
 	walk(f)
 	return out
+}
+
+
+// MustReach decides whether, under the cell, every live path from the frame's
+// entry to a return that may report success executes an instruction satisfying
+// pred — directly, or inside a module callee (or closure the cell determines)
+// whose own frame must reach it. Paths that end in a provably failing return
+// do not count.
+func (f *Frame) MustReach(pred func(in ssa.Instruction, fr *Frame) bool) bool {
+	return f.mustReach(pred, map[*Frame]bool{})
+}
+
+func (f *Frame) mustReach(pred func(in ssa.Instruction, fr *Frame) bool, inprog map[*Frame]bool) bool {
+	if f == nil || len(f.Fn.Blocks) == 0 {
+		return false
+	}
+	if inprog[f] {
+		return false
+	}
+	inprog[f] = true
+	defer delete(inprog, f)
+	sat := map[int]bool{}
+	for bi := range f.liveBlock {
+		for _, in := range f.Fn.Blocks[bi].Instrs {
+			if pred(in, f) {
+				sat[bi] = true
+				break
+			}
+			if call, ok := in.(ssa.CallInstruction); ok {
+				if _, isGo := in.(*ssa.Go); isGo {
+					continue
+				}
+				if _, isDefer := in.(*ssa.Defer); isDefer {
+					continue
+				}
+				if ch := f.childFrame(call); ch != nil && ch.mustReach(pred, inprog) {
+					sat[bi] = true
+					break
+				}
+			}
+		}
+	}
+	hasErr := errResultIndex(f.Fn.Signature) >= 0
+	seen := map[int]bool{}
+	var dfs func(bi int) bool // true = found a bypassing success path
+	dfs = func(bi int) bool {
+		if sat[bi] || seen[bi] {
+			return false
+		}
+		seen[bi] = true
+		b := f.Fn.Blocks[bi]
+		if ret, ok := b.Instrs[len(b.Instrs)-1].(*ssa.Return); ok {
+			if hasErr && errorIsNonNilAt(ret) {
+				return false
+			}
+			return true
+		}
+		for _, s := range b.Succs {
+			if f.liveEdge[[2]int{bi, s.Index}] && dfs(s.Index) {
+				return true
+			}
+		}
+		return false
+	}
+	return !dfs(0)
 }
